@@ -584,6 +584,9 @@ func constVal(c *ssa.Const) Val {
 		switch c.Type().Underlying().(type) {
 		case *types.Pointer, *types.Slice, *types.Map, *types.Chan, *types.Interface, *types.Signature:
 			return Val{K: KNil}
+		case *types.Struct, *types.Array:
+			// the zero value of an aggregate: every component reads as zero
+			return Val{K: KAgg, S: "$zero", Agg: map[string]cell{}}
 		}
 		return top
 	}
